@@ -260,7 +260,17 @@ impl XFuncSpec {
         for (arg, param) in args.iter().zip(self.params.iter()) {
             ret = ret.mix(&param.type_.bind_in_assignment(arg)?)?;
         }
+        if !self.can_bind(&ret) {
+            return None;
+        }
         Some(ret)
+    }
+
+    /// only the function's own generic parameters can be bound by a call: a type parameter of an
+    /// enclosing function is one fixed type inside that function
+    pub(crate) fn can_bind(&self, bind: &Bind) -> bool {
+        let own_generics = self.generic_params.as_deref().unwrap_or(&[]);
+        bind.iter().all(|(name, _)| own_generics.contains(name))
     }
 
     pub(crate) fn rtype(&self, bind: &Bind) -> Arc<XType> {
